@@ -678,7 +678,9 @@ bool GlobalGraph::nodesAreMetOnlyOnce_(const GlobalGraph::Node& node, set<Global
   vector<Graph::NodeId> neighbors = getOutgoingNeighbors(node);
   for (auto currNeighbor:neighbors)
   {
-    if (currNeighbor == originNode)
+    // in an undirected graph the relation we came through is also recorded the other way
+    // round: do not walk it back (the first call has no origin: originNode == node)
+    if (!directed_ && originNode != node && currNeighbor == originNode)
       continue;
     if (!nodesAreMetOnlyOnce_(currNeighbor, metNodes, node))
       return false;
